@@ -188,8 +188,8 @@ def sections(tier):
     secs = []
     PSD_TO[0] = 0 if tier == 'quick' else 120000   # quick: PSD by lemma chain only; thorough: also SOS certificate + direct query
     if tier == 'quick':
-        plan = [('X1s', 60000, 170), ('X1', 60000, 170), ('X4r', 60000, 170), ('X2', 10000, 170), ('X5', 10000, 170)]
-        eplan = [('X1s', 0), ('X1', 1), ('X2', 0), ('X5', 0), ('X5', 1)]
+        plan = [('X1s', 60000, 170), ('X1', 60000, 170), ('X4r', 60000, 170), ('X2', 10000, 170), ('X5', 10000, 170), ('X1si', 60000, 170)]
+        eplan = [('X1s', 0), ('X1', 1), ('X2', 0), ('X5', 0), ('X5', 1), ('X1si', 1)]
     else:
         plan = [('X1s', 120000, 1200), ('X1', 120000, 1200), ('X4r', 120000, 1200), ('X2', 120000, 1200), ('X3', 120000, 1200)]
         eplan = [(c, k) for c in ('X1s', 'X1', 'X4r', 'X2', 'X3', 'X5') for k in range(3)]
